@@ -1,3 +1,4 @@
+pub mod abi;
 pub mod model;
 pub mod ops;
 pub mod tap;
